@@ -25,6 +25,10 @@ func DerivePublic(priv []byte) (x, y []byte, err error) {
 
 	var pubBytes []byte
 	pubBytes = pub.Bytes_Unsafe()
+	if len(pubBytes) != 65 {
+		// priv is 0 mod n: the result is the point at infinity, which has no affine coordinates
+		return nil, nil, errors.New("invalid private key: public key would be the point at infinity")
+	}
 
 	return pubBytes[1:33], pubBytes[33:], nil
 }
